@@ -338,6 +338,114 @@ async fn long_session_run(files: usize, scratch: &Path) -> Result<(u64, u64, Opt
     Ok((frames, checks, None))
 }
 
+// ------------------------------------------------------------------------------------------------
+// a session run while the log's writer sits on a full disk
+// ------------------------------------------------------------------------------------------------
+
+pub const CLASS_SESSION_FULL_DISK: &str = "session_frames_published_but_not_logged_when_log_write_fails";
+
+async fn session_on_full_disk_run(scratch: &Path) -> Result<(u64, u64, Vec<(String, String, Value)>), String> {
+    if !Path::new("/dev/full").exists() {
+        return Err("no /dev/full on this box".to_string());
+    }
+    let data_dir = scratch.join("data");
+    let workspace = scratch.join("workspace");
+    std::fs::create_dir_all(&data_dir).map_err(|e| e.to_string())?;
+    std::fs::create_dir_all(&workspace).map_err(|e| e.to_string())?;
+    std::fs::write(workspace.join("a.txt"), "alpha\n").map_err(|e| e.to_string())?;
+    // the engine opens its log while events.jsonl points at /dev/full: the writer keeps that descriptor, every
+    // write answers ENOSPC; readers re-open the path and see the real (empty) file
+    let link = data_dir.join("events.jsonl");
+    let real = data_dir.join("events.real.jsonl");
+    std::os::unix::fs::symlink("/dev/full", &link).map_err(|e| format!("symlink: {e}"))?;
+    let engine = SessionEngine::new(data_dir.clone(), workspace, None);
+    let _ = std::fs::remove_file(&link);
+    std::fs::write(&real, b"").map_err(|e| e.to_string())?;
+    std::os::unix::fs::symlink(&real, &link).map_err(|e| format!("symlink back: {e}"))?;
+    let engine = engine?;
+    let handle = engine.create_session();
+    let sid = handle.session_id.clone();
+    let mut rx = handle.subscribe();
+    let (tx, done) = tokio::sync::oneshot::channel();
+    std::thread::spawn(move || {
+        let Ok(rt) = tokio::runtime::Builder::new_current_thread().enable_time().build() else { return };
+        let res = rt.block_on(async move {
+            let mut frames: Vec<Event> = vec![];
+            let t0 = Instant::now();
+            loop {
+                let left = Duration::from_secs(180).checked_sub(t0.elapsed()).unwrap_or(Duration::from_millis(1));
+                match tokio::time::timeout(left, rx.recv()).await {
+                    Ok(Ok(ev)) => frames.push(ev),
+                    Ok(Err(RecvError::Lagged(_))) => {}
+                    Ok(Err(RecvError::Closed)) => break (frames, true),
+                    Err(_) => break (frames, false),
+                }
+            }
+        });
+        let _ = tx.send(res);
+    });
+    engine.spawn_session(handle, json!({"tool": "read", "args": {"path": "a.txt"}}).to_string(), None, None);
+    let (live, finished) = done.await.map_err(|e| format!("collector: {e}"))?;
+    if !finished {
+        return Err("the session did not finish within 180 s".to_string());
+    }
+    let logged: Vec<Value> = read_lines(&real)?;
+    let snap_path = data_dir.join("snapshots").join(format!("{sid}.json"));
+    let snap: Vec<Value> = rip_log::read_snapshot(&snap_path).map(|v| v.iter().map(canon).collect()).unwrap_or_default();
+    let l: Vec<Value> = live.iter().map(canon).collect();
+    let mut bad = vec![];
+    let missing_live: Vec<&Value> = l.iter().filter(|f| !logged.contains(f)).collect();
+    let missing_snap: Vec<&Value> = snap.iter().filter(|f| !logged.contains(f)).collect();
+    if !missing_live.is_empty() || !missing_snap.is_empty() {
+        // the known shape: every frame of the run was recorded and published before its (failed, ignored) log append:
+        // live stream = snapshot, frame for frame, and the log holds none of them
+        let known = l == snap && logged.is_empty() && !l.is_empty();
+        let first = missing_live.first().or(missing_snap.first()).map(|v| short(v)).unwrap_or_default();
+        bad.push((
+            if known { CLASS_SESSION_FULL_DISK.to_string() } else { "views_differ_on_full_disk".to_string() },
+            format!(
+                "a session run while every log write fails (ENOSPC): the live subscriber received {} frames and the snapshot holds {}, events.jsonl holds {} frames of the session: {} live and {} snapshot frames are not in the log (emit_event drops the error of event_log.append after recording and publishing the frame); first: {first}",
+                l.len(), snap.len(), logged.len(), missing_live.len(), missing_snap.len()
+            ),
+            json!({"live": l.len(), "snapshot": snap.len(), "log": logged.len(), "live_types": l.iter().map(ty).collect::<Vec<_>>(), "live_equals_snapshot": l == snap}),
+        ));
+    }
+    Ok((l.len() as u64, 2, bad))
+}
+
+/// The model's `c03_unchecked_log_last_refuted`, replayed on the real `SessionEngine`.
+pub fn session_on_full_disk() -> ExtraOutcome {
+    let mut out = ExtraOutcome::default();
+    out.evaluations += 1;
+    let replay = json!({"kind": "session_on_full_disk",
+        "how": "data/events.jsonl is a symlink to /dev/full while SessionEngine::new opens the log (the writer keeps the descriptor: every write fails with ENOSPC) and to an empty real file afterwards; one session with the input {\"tool\":\"read\",\"args\":{\"path\":\"a.txt\"}}, a subscriber attached before the run; then compare live frames and snapshots/<session>.json with the log"});
+    let scratch = Scratch::new("c03f");
+    let rt = match tokio::runtime::Builder::new_multi_thread().worker_threads(2).enable_all().build() {
+        Ok(rt) => rt,
+        Err(e) => {
+            out.notes.push(format!("session on full disk: no runtime: {e}"));
+            return out;
+        }
+    };
+    match catch_unwind(AssertUnwindSafe(|| rt.block_on(session_on_full_disk_run(scratch.path())))) {
+        Ok(Ok((frames, checks, bad))) => {
+            out.oracle_checks += checks;
+            out.bump("full_disk_session.frames", frames);
+            for (class, what, detail) in bad {
+                let mut rp = replay.clone();
+                rp["detail"] = detail;
+                out.violations.push(OracleViolation { case_id: -4_000_001, what, class, replay: rp });
+            }
+        }
+        Ok(Err(e)) => out.notes.push(format!("session on full disk: not run: {e}")),
+        Err(p) => {
+            let msg = p.downcast_ref::<String>().cloned().or_else(|| p.downcast_ref::<&str>().map(|s| s.to_string())).unwrap_or_default();
+            out.violations.push(OracleViolation { case_id: -4_000_001, what: format!("session on full disk: panic: {msg}"), class: "panic".into(), replay });
+        }
+    }
+    out
+}
+
 pub fn long_session(files: usize) -> ExtraOutcome {
     let mut out = ExtraOutcome::default();
     let t0 = Instant::now();
